@@ -108,6 +108,14 @@ Theorem C18_generate_idempotent : forall ts ops,
 Proof. exact generate_idempotent. Qed.
 Print Assumptions C18_generate_idempotent.
 
+(** Persist / restore (the state is serialised and replaced by the deserialised copy; the
+    identity on the unchanged code, a no-op of the model): inserting such a step anywhere in a
+    history changes neither the states nor the reports. *)
+Theorem C18_persist_restore_noop : forall ts ops1 ops2,
+  ts_run ts (ops1 ++ TRt :: ops2) = ts_run ts (ops1 ++ ops2).
+Proof. exact persist_restore_noop. Qed.
+Print Assumptions C18_persist_restore_noop.
+
 (** the asset / instrument generators run that glue on the total-balance curve, resp. on the
     cumulative realised PnL curve (a [default()] tear sheet behaves like [ts_init] from its
     first point on) *)
